@@ -496,6 +496,31 @@ class HostileCtx(object):
                                 "agent went IDLE after the burst; no reconnect within idle_hold_time=%s s (t=%.3f..%.3f)"
                                 % (cfg["idle_hold_time"], t0, w.now()))
             self.stats["reconnect_after_close"] += 1
+            if cfg.get("refuse_first_reconnect"):
+                # the reconnect is refused: the reconnect after that must be scheduled as well
+                pend = [k for k, c in enumerate(w.live_conns()) if c.state == "connecting"]
+                if pend:
+                    pos = len(w.log)
+                    w.apply(["conn_refuse", pend[0]])
+                    escapes(pos, "connect-refused-after-burst")
+                    n1 = len(w.conns)
+                    t1 = w.now()
+                    limit = t1 + cfg["idle_hold_time"] + 1e-6
+                    guard = 0
+                    while len(w.conns) == n1 and guard < 50:
+                        nt = w.reactor.next_time()
+                        if nt is None or nt > limit:
+                            break
+                        pos = len(w.log)
+                        w.apply(["fire", 0])
+                        escapes(pos, "timer-after-refused-reconnect")
+                        guard += 1
+                    if len(w.conns) == n1:
+                        raise Violation("C10", "end-state", "no-second-reconnect-after-refused-one/after-%s" % (kinds[-1] if kinds else "none"),
+                                        "agent closed after the burst and reconnected once; that attempt was refused and no further "
+                                        "attempt followed within idle_hold_time=%s s (state %s, %d calls pending)"
+                                        % (cfg["idle_hold_time"], w.state(), len(w.reactor._calls)))
+                    self.stats["second_reconnect_after_refusal"] += 1
         else:
             raise Violation("C10", "end-state", "ends-in-%s" % st, "unexpected state %s after the burst" % st)
         self.account(w)
@@ -604,7 +629,7 @@ class HostileProfile(BaseProfile):
             "duplicated attributes / absurd length fields; occasionally a wrong header length) in OpenSent/OpenConfirm/"
             "Established, frame-per-chunk (75 %) or coalesced, then 1-3 known-good messages whose handler payloads are "
             "compared with a control run; non-trivial = prefix reached the state; distinct = distinct (state, frame kinds)")
-    probes = ["late_close_variants", "late_close_survived", "hostile_frame:UPDATE", "hostile_frame:OPEN", "hostile_frame:NOTIFICATION", "hostile_frame:ROUTE-REFRESH",
+    probes = ["second_reconnect_after_refusal", "late_close_variants", "late_close_survived", "hostile_frame:UPDATE", "hostile_frame:OPEN", "hostile_frame:NOTIFICATION", "hostile_frame:ROUTE-REFRESH",
               "hostile_frame:KEEPALIVE", "hostile_frame:bad_length", "malformed_update_reports",
               "update_frames_in_established", "tail_compared", "reconnect_after_close", "coalesced_bursts"]
 
@@ -616,6 +641,7 @@ class HostileProfile(BaseProfile):
             cfg["afi_safi"] = rng.pick([["ipv4"], ["ipv4", "ipv6"], ["ipv4", "flowspec", "ipv4_lu"], ["ipv4", "bgpls", "evpn"]])
         cfg["rib"] = rng.chance(0.3)
         cfg["late_close"] = rng.chance(0.3)
+        cfg["refuse_first_reconnect"] = rng.chance(0.4)
         return cfg
 
     def new_ctx(self, cfg, tier):
